@@ -51,20 +51,21 @@ def mir_dump(features=''):
     """Dump the MIR of /repo's lib crate (dev profile: debug assertions and overflow checks on).
     The dump is keyed by a hash of the working tree, so an edited tree is always re-dumped."""
     os.makedirs(TARGET, exist_ok=True)
-    key = src_hash() + 'v2' + ('-' + features.replace(',', '_') if features else '')
+    key = src_hash() + 'v2' + (hashlib.sha256(REPO.encode()).hexdigest()[:6] if REPO != '/repo' else '') + ('-' + features.replace(',', '_') if features else '')
     out = os.path.join(TARGET, 'mir-%s.txt' % key)
     if os.path.exists(out) and os.path.getsize(out) > 1000000:
         return out, 0.0
     for f in os.listdir(TARGET):
-        if f.startswith('mir-') and f.endswith('.txt'):
+        if f.startswith('mir-') and f.endswith('.txt') and REPO == '/repo' and len(f) == len('mir-') + 18 + 4:
             try:
                 os.remove(os.path.join(TARGET, f))
             except OSError:
                 pass
     t = time.time()
-    env = dict(os.environ, CARGO_NET_OFFLINE='true', CARGO_TARGET_DIR=os.path.join(TARGET, 'mir'))
+    mir_target = os.path.join(TARGET, 'mir' if REPO == '/repo' else 'mir-' + hashlib.sha256(REPO.encode()).hexdigest()[:6])
+    env = dict(os.environ, CARGO_NET_OFFLINE='true', CARGO_TARGET_DIR=mir_target)
     # cargo does not re-run rustc when nothing changed, and then prints no MIR: force it
-    fp = os.path.join(TARGET, 'mir', 'debug', '.fingerprint')
+    fp = os.path.join(mir_target, 'debug', '.fingerprint')
     if os.path.isdir(fp):
         import shutil
         for d in os.listdir(fp):
@@ -99,7 +100,8 @@ def known_keys(prop):
 
 # ------------------------------------------------------------------------------ evidence
 def write_evidence(prop, tier, level, coverage, wall_s, assumptions, violations=0):
-    os.makedirs(os.path.join(VERIF, 'evidence'), exist_ok=True)
+    evdir = os.path.join(VERIF, 'evidence') if REPO == '/repo' else os.path.join(TARGET, 'evidence-scratch')
+    os.makedirs(evdir, exist_ok=True)
     ev = {
         'property_id': prop,
         'tier': tier,
@@ -110,7 +112,7 @@ def write_evidence(prop, tier, level, coverage, wall_s, assumptions, violations=
         'wall_s': round(wall_s, 2),
         'violations': violations,
     }
-    p = os.path.join(VERIF, 'evidence', prop + '.json')
+    p = os.path.join(evdir, prop + '.json')
     with open(p + '.tmp', 'w') as f:
         json.dump(ev, f, indent=1, default=str)
     os.rename(p + '.tmp', p)
@@ -118,7 +120,7 @@ def write_evidence(prop, tier, level, coverage, wall_s, assumptions, violations=
 
 
 def write_replay(prop, name, payload):
-    d = os.path.join(VERIF, 'replays')
+    d = os.path.join(VERIF, 'replays') if REPO == '/repo' else os.path.join(TARGET, 'replays-scratch')
     os.makedirs(d, exist_ok=True)
     p = os.path.join(d, '%s-%s.json' % (prop, re.sub(r'[^A-Za-z0-9_.-]', '_', name)[:80]))
     with open(p, 'w') as f:
